@@ -523,6 +523,9 @@ func genToken(c *Ctx) {
 			if !sweep {
 				break
 			}
+			if !c.Thorough() && p.name == "rsa" && off%3 != si%3 {
+				continue // quick tier: every third offset of the (long) RSA tokens
+			}
 			for _, bit := range bits {
 				b := append([]byte{}, sealed...)
 				b[off] ^= 1 << bit
